@@ -417,4 +417,131 @@ theorem locator_finds {c : HdrCfg} {info : Extracted} {old a hdr b : Text} (hs :
       rw [this, List.drop_left' (by simp)]
     rw [this]
 
+/-! ### the written header is not taken for a first-line declaration (shebang) -/
+
+/-- the first-line marker `sb` cannot begin a comment block of the style (decidable) -/
+def ShebangFree (s : Style) (sb : Text) : Prop :=
+  NoBreak sb ∧
+  (s.canSingle = true → startsWith s.single sb = false ∧ startsWith (s.single ++ s.indentAfterSingle) sb = false ∧
+    startsWith sb (s.single ++ s.indentAfterSingle) = false) ∧
+  (s.canMulti = true → startsWith s.mStart sb = false)
+
+instance (s : Style) (sb : Text) : Decidable (ShebangFree s sb) := by
+  unfold ShebangFree
+  exact inferInstance
+
+/-- a first line of `_create_comment_single` does not start with a break-free pattern that neither is a prefix of
+    nor extends `marker + indentation` (the argument of `no_multi_open`, for any pattern) -/
+theorem no_prefix_open {s : Style} (p : Text) (hnb : NoBreak p) (h1 : startsWith s.single p = false)
+    (h2 : startsWith (s.single ++ s.indentAfterSingle) p = false)
+    (h3 : startsWith p (s.single ++ s.indentAfterSingle) = false) (l tail : Text) :
+    startsWith (singleLine s l ++ '\n' :: tail) p = false := by
+  cases hsw : startsWith (singleLine s l ++ '\n' :: tail) p with
+  | false => rfl
+  | true =>
+    exfalso
+    have hp : p <+: singleLine s l ++ '\n' :: tail := List.isPrefixOf_iff_prefix.mp hsw
+    have hp2 := prefix_break_free hp (noBreak_noLF hnb)
+    unfold singleLine at hp2
+    by_cases hl : l.isEmpty = true
+    · simp only [hl, if_true, List.append_nil] at hp2
+      have := List.isPrefixOf_iff_prefix.mpr hp2
+      simp only [startsWith] at h1
+      rw [h1] at this; cases this
+    · simp only [hl, Bool.false_eq_true, if_false] at hp2
+      rw [← List.append_assoc] at hp2
+      rcases Nat.le_total p.length (s.single ++ s.indentAfterSingle).length with hle | hle
+      · have := List.prefix_of_prefix_length_le hp2 (List.prefix_append _ l) hle
+        have := List.isPrefixOf_iff_prefix.mpr this
+        simp only [startsWith] at h2
+        rw [h2] at this; cases this
+      · have := List.prefix_of_prefix_length_le (List.prefix_append _ l) hp2 hle
+        have := List.isPrefixOf_iff_prefix.mpr this
+        simp only [startsWith] at h3
+        rw [h3] at this; cases this
+
+theorem startsWith_append_mono {t x p : Text} (h : startsWith t p = true) : startsWith (t ++ x) p = true := by
+  obtain ⟨u, hu⟩ := List.isPrefixOf_iff_prefix.mp h
+  exact List.isPrefixOf_iff_prefix.mpr ⟨u ++ x, by rw [← hu]; simp⟩
+
+/-- a block of `create_comment` does not start with a marker that is `ShebangFree` for the style -/
+theorem block_no_shebang {s : Style} (hs : StyleOK s) (fm : Bool) (text blk : Text)
+    (h : createComment s text fm = .ok blk) (sb : Text) (hf : ShebangFree s sb) : startsWith blk sb = false := by
+  obtain ⟨hes, hS, hM⟩ := hs
+  obtain ⟨hnb, hfS, hfM⟩ := hf
+  suffices hsuf : startsWith (blk ++ ['\n']) sb = false by
+    cases hb : startsWith blk sb with
+    | false => rfl
+    | true => rw [startsWith_append_mono hb] at hsuf; cases hsuf
+  unfold createComment at h
+  simp only [hes, Bool.false_eq_true, if_false] at h
+  by_cases hmode : (fm || !s.canSingle) = true
+  · simp only [hmode, if_true] at h
+    have hcm : s.canMulti = true := by
+      cases hcm : s.canMulti with
+      | true => rfl
+      | false => simp [createMulti, hcm] at h
+    obtain ⟨_, rfl⟩ := createMulti_eq hcm h
+    cases hsw : startsWith (join ['\n'] ([s.mStart] ++ (splitOn ['\n'] text).map (midLine s) ++ [s.indentBeforeEnd ++ s.mEnd]) ++ ['\n']) sb with
+    | false => rfl
+    | true =>
+      exfalso
+      have hassoc : [s.mStart] ++ (splitOn ['\n'] text).map (midLine s) ++ [s.indentBeforeEnd ++ s.mEnd] =
+          s.mStart :: ((splitOn ['\n'] text).map (midLine s) ++ [s.indentBeforeEnd ++ s.mEnd]) := by simp
+      rw [hassoc, join_cons_ne _ _ (by simp), List.append_assoc] at hsw
+      have hp := prefix_break_free (List.isPrefixOf_iff_prefix.mp hsw) (noBreak_noLF hnb)
+      have := List.isPrefixOf_iff_prefix.mpr hp
+      have h0 := hfM hcm
+      simp only [startsWith] at h0
+      rw [h0] at this; cases this
+  · simp only [hmode, Bool.false_eq_true, if_false] at h
+    have hcs : s.canSingle = true := by
+      cases hcs : s.canSingle with
+      | true => rfl
+      | false => simp [hcs] at hmode
+    obtain ⟨h1, h2, h3⟩ := hfS hcs
+    rw [createSingle_eq hcs] at h
+    simp only [Except.ok.injEq] at h
+    subst h
+    obtain ⟨hLne, _⟩ := splitOn_lf_noLF text
+    generalize splitOn ['\n'] text = L at hLne
+    cases L with
+    | nil => exact absurd rfl hLne
+    | cons l ls =>
+      cases ls with
+      | nil => simpa [join] using no_prefix_open sb hnb h1 h2 h3 l []
+      | cons l2 ls2 =>
+        rw [List.map_cons, join_cons_ne _ _ (by simp), List.append_assoc]
+        exact no_prefix_open sb hnb h1 h2 h3 l _
+
+/-- … so neither does what `create_header` returns -/
+theorem header_no_shebang {c : HdrCfg} {info : Extracted} {old hdr : Text} (hs : StyleOK c.style)
+    (hcom : c.commented = false) (h : createHeader c info old = .ok hdr) (hno : NoExoticBreaks hdr)
+    (sb : Text) (hf : ShebangFree c.style sb) : startsWith hdr sb = false := by
+  obtain ⟨text, _, hblk⟩ := createHeader_block hs hcom h hno
+  exact block_no_shebang hs _ _ _ hblk sb hf
+
+/-- a break-free marker begins `hdr ++ "\n"` only if it begins `hdr` -/
+theorem startsWith_lf_iff {hdr sb : Text} (hnb : NoBreak sb) (h : startsWith hdr sb = false) :
+    startsWith (hdr ++ ['\n']) sb = false := by
+  cases hsw : startsWith (hdr ++ ['\n']) sb with
+  | false => rfl
+  | true =>
+    have hp := prefix_break_free (List.isPrefixOf_iff_prefix.mp hsw) (noBreak_noLF hnb)
+    have := List.isPrefixOf_iff_prefix.mpr hp
+    simp only [startsWith] at h
+    rw [h] at this; cases this
+
+theorem belowOf_fresh_shape (y : Text) : belowOf y false = [] ∨ ∃ r, belowOf y false = '\n' :: r := by
+  unfold belowOf
+  split
+  · left; rfl
+  · right
+    by_cases hst : startsWith y ['\n'] = true
+    · obtain ⟨u, hu⟩ := List.isPrefixOf_iff_prefix.mp hst
+      subst hu
+      have hst' : startsWith ('\n' :: u) ['\n'] = true := hst
+      exact ⟨u, by simp [hst']⟩
+    · exact ⟨y, by simp [hst]⟩
+
 end C10L
